@@ -15,7 +15,7 @@ OPN = {1: "Vect3::solid_angle", 2: "integral_simplified_green", 3: "analyticS(v0
        5: "analyticD3::f", 6: "analyticDipPotDer::f", 7: "Dipole::potential", 8: "Details::operatorFerguson",
        9: "Integrator::integrate", 10: "Integrator::rules", 11: "Integrator::integrate(monomial, unit triangle)",
        12: "Integrator::safe_order", 20: "analyticS::f vs reference quadrature", 21: "analyticD3::f / solid_angle vs reference quadrature",
-       22: "operatorFerguson vs reference quadrature", 24: "analyticDipPotDer::f vs finite differences"}
+       22: "operatorFerguson vs reference quadrature", 25: "operatorFerguson vs Biot-Savart definition (closed fan)", 24: "analyticDipPotDer::f vs finite differences"}
 KIND = {0: "polynomial", 1: "Dipole::potential", 2: "analyticS::f", 3: "analyticD3::f", 4: "analyticDipPotDer::f"}
 DEG = {1: 4, 2: 5, 3: 8}
 POLY_TOL = 2e-13          # exactness through the real Integrator: table error (<=1e-14, proved) + rounding of ~100 flops
@@ -72,16 +72,18 @@ def gen_cases(rng, n_kernel, n_int, n_ref):
         cases.append(core.fcase("c16", [22, len(tr)] + [r for _, _, r in tr], fl(p, V, *[y for A, B, _ in tr for y in (A, B)])))
         r0, q = g.dipole_for(rng, t); y, _ = g.point_for(rng, t)
         cases.append(core.fcase("c16", [24], fl(r0, q, *t, y)))
+        V, tr = g.fan(rng, closed=True); p = g.fan_point(rng, V, tr)
+        cases.append(core.fcase("c16", [25, len(tr)] + [r for _, _, r in tr], fl(p, V, *[y for A, B, _ in tr for y in (A, B)])))
     return cases
 
 def table_cases():
     cs = ["c16 10 %d |" % o for o in range(4)] + ["c16 12 %d |" % o for o in (0, 1, 2, 3, 4, 5, 100)]
     for o in (1, 2, 3):
         d = DEG[o]
-        for a in range(d + 1):
-            for b in range(d + 1 - a):
-                for c in range(d + 1 - a - b):
-                    cs.append(core.fcase("c16", [11, o, 0, a, b, c], [0.0]))
+        for deg in range(d + 1):                 # by increasing degree: the first failing monomial is a lowest-degree one
+            for a in range(deg, -1, -1):
+                for b in range(deg - a, -1, -1):
+                    cs.append(core.fcase("c16", [11, o, 0, a, b, deg - a - b], [0.0]))
         for (a, b, c) in [(1, 1, 1), (d, 0, 0), (0, 0, 0)]:          # refined: same exact value
             cs.append(core.fcase("c16", [11, o, 2, a, b, c], [0.0]))
     return cs
@@ -153,7 +155,19 @@ def evaluate(ck, hb, cases, stats, search=True):
                 else:
                     rcase = reference_case_for(c) if search else None
                     extra.append((c, mo[c], i, rcase))
-        # ---- exact values for polynomial integrands through the real Integrator
+        # ---- orbit structure of the compiled table (replay of quadrature_point_set_symmetric / ..._rule3_refuted)
+        if op == 10 and iz and len(iz) > 1:
+            nodes = [tuple(if_[4 * k:4 * k + 4]) for k in range(iz[1])]
+            S = set(nodes); bad_node = None
+            for (a, b, cc, w) in nodes:
+                for q in ((b, cc, a, w), (cc, a, b, w), (b, a, cc, w), (a, cc, b, w), (cc, b, a, w)):
+                    if q not in S and bad_node is None: bad_node = q
+            st["asymmetric_tables"] = st.get("asymmetric_tables", 0) + (1 if bad_node else 0)
+            if ints[1] == 3 and bad_node is None:
+                viol("rule 3: refuted exact symmetry does not reproduce", "quadrature_point_set_symmetric_rule3_refuted says the 16-point table is not exactly symmetric, the compiled table is: the model is not the code")
+            if bad_node is not None:
+                viol("rule %d: node set not closed under coordinate permutations, missing image (%.15f, %.15f, %.15f)" % ((ints[1],) + bad_node[:3]),
+                     "Integrator::rules[%d]: the image (%.15f, %.15f, %.15f) weight %.15f of a node under a permutation of the barycentric coordinates is not a node: rotating the vertices of a triangle changes the rule's value (at the 1e-15 level)" % ((ints[1],) + bad_node))
         if op == 11:
             o, depth, a, b, cc = ints[1:6]
             ex = g.dirichlet(a, b, cc)
@@ -174,7 +188,7 @@ def evaluate(ck, hb, cases, stats, search=True):
                      % (ints[1], ints[2], fs[0], DEG[o], if_[0], float(I) * a2, abs(if_[0] - float(I) * a2) / (float(S) * a2), c[:400]))
             st["exact_checked"] = st.get("exact_checked", 0) + 1
         # ---- property relations on the implementation's own outputs
-        if op in (20, 21, 22, 24):
+        if op in (20, 21, 22, 24, 25):
             bad = ref_compare(op, if_)
             for what, got, ref, bound in bad:
                 viol("%s: %s" % (OPN[op], what),
@@ -231,6 +245,11 @@ def ref_compare(op, f):
         for n in range(3):
             b = _bound(mag, e)
             if abs(k[n] - r[n]) > b: bad.append(("component %d vs sum_T int_T grad(phi_V) x n/|x-y| dy" % n, k[n], r[n], b))
+    elif op == 25:
+        k = f[0:3]; r = f[3:6]; e = f[6]; mag = max(abs(x) for x in r) + max(abs(x) for x in k)
+        for n in range(3):
+            b = _bound(mag, e)
+            if abs(k[n] - r[n]) > b: bad.append(("component %d vs sum_T int_T phi_V n x (x-y)/|x-y|^3 dS (definition, before integration by parts)" % n, k[n], r[n], b))
     elif op == 24:
         k = f[0:3]; r = f[3:6]; mag = max(abs(x) for x in r) + max(abs(x) for x in k)
         for n in range(3):
@@ -240,7 +259,7 @@ def ref_compare(op, f):
 
 def ref_worst(op, f):
     if op == 20: return abs(f[0] - f[1]) / max(abs(f[1]), 1e-300)
-    if op in (21, 22, 24):
+    if op in (21, 22, 24, 25):
         mag = max(abs(x) for x in f[3:6])
         if mag < 1e-6: return 0.0          # in-plane points: both sides ~0 (absolute bound applies)
         return max(abs(f[n] - f[3 + n]) for n in range(3)) / mag
@@ -284,12 +303,16 @@ def main(replay=None):
     # many monomials fail together when a table entry changes: report the first few per rule
     seen = {}; kept = []
     for v in found:
-        key = v[0].split(":")[0] if v[0].startswith("rule ") else None
+        key = (v[0].split(":")[0] + (" mono" if "monomial" in v[0] else " poly")) if v[0].startswith("rule ") else None
         if key:
             seen[key] = seen.get(key, 0) + 1
             if seen[key] > 4: continue
         kept.append(v)
-    found = kept
+    def mono_deg(v):
+        import re
+        m = re.match(r"rule (\d+): monomial l0\^(\d+) l1\^(\d+) l2\^(\d+)", v[0])
+        return (0, int(m.group(1)), int(m.group(2)) + int(m.group(3)) + int(m.group(4))) if m else (1, 0, 0)
+    found = sorted(kept, key=mono_deg)           # lowest-degree failing monomial first (stable for the rest)
     for v in found:
         sig, desc, rep = v[0], v[1], v[2]; fi = v[3] if len(v) > 3 else True
         concrete = concrete or fi
@@ -297,7 +320,7 @@ def main(replay=None):
     # a broken moment theorem: name the monomial and replay it through the real Integrator (already in table_cases;
     # here for tables whose failing monomial the sweep tolerance would not show)
     if ck.broken_theorems and not replay:
-        for (o, a, b, c, e) in table_search(ck)[:5]:
+        for (o, a, b, c, e) in sorted(table_search(ck), key=lambda t: (t[0], t[1] + t[2] + t[3]))[:5]:
             line = core.fcase("c16", [11, o, 0, a, b, c], [0.0])
             _, io, _ = core.run_harness(hb, [line], ck.workdir, tag="tsearch")
             iz, if_ = core.fparse(io[0])
